@@ -404,7 +404,7 @@ impl<KT: DbMapKeyType> KeyPiece<KT> {
         file.seek_from_start(self.offset)?;
         file.write_piece_size(self.size)?;
         file.write_key_len(key_len)?;
-        file.write_all_small(key)?;
+        file.write_all(key)?;
         //
         #[cfg(feature = "next_straight")]
         file.write_value_piece_offset(self.value_offset)?;
